@@ -608,12 +608,22 @@ def constShortcut (o : ConvOut) : Bool :=
   let consts : List Rat := o.defs.filterMap (fun d => match d.f with | .affine [] c => some c | _ => none)
   nots.any (fun c => decide (2 ≤ (nots ++ consts).count c))
 
+/-- a delivered row, algebraic row or the objective mentions the result variable of a removed definition.  The real converter
+leaves that variable with the bounds `0..0` (`FixUnusedDefinedVars`) whatever value the propagation gave it — when something
+delivered still reads it (a natively accepted `Not` whose argument is a removed `And`), the real delivered model is wrong
+(known finding C01-result-var-usage-count); in the theorems the variable keeps its propagated value. -/
+def removedRef (o : ConvOut) : Bool :=
+  let rem := (o.blocks.filter (·.removed)).map (·.d.res)
+  o.kept.any (fun b => b.cons.any (fun c => c.vars.any (fun v => rem.contains v))) ||
+  o.rootsD.any (fun r => r.body.any (fun p => rem.contains p.2)) ||
+  (match o.obj with | some ob => ob.lin.any (fun p => rem.contains p.2) | none => false)
+
 /-- further paths of the real converter not mirrored (see design notes, rounds 5 and 6): the timing of the downward propagation,
 shared `MakeFixedVar` constants, the unary-encoding treatment of `var == const` (`ConvertMaps`), results whose created bounds are a
 point (`MakeFixedVar` instead of a definition) -/
 def ConvOut.shortcut2 (o : ConvOut) (linear : Bool) : Bool :=
   o.defs.any (timingShortcut o.facts (nRefs o.defs o.fixTrue o.rootsD o.obj)) ||
-  (linear && constShortcut o) ||
+  (linear && constShortcut o) || removedRef o ||
   o.defs.any (fun d => match d.f with
     | .condLin .eq [(_, v)] _ => (o.B0 v).isInt
     | .affine [] _ => false
